@@ -352,7 +352,7 @@ func c03R3(c *Ctx) {
 				return
 			}
 			nSwap++
-			hit, path := reachAvoid(st, func(x ssa.Instruction) bool { _, isRet := x.(*ssa.Return); return isRet }, func(x ssa.Instruction) bool {
+			hit, path := reachAvoid(st, func(x ssa.Instruction) bool { _, isRet := x.(*ssa.Return); return isRet }, c.orWrapper("cursor=0", func(x ssa.Instruction) bool {
 				s2, ok := x.(*ssa.Store)
 				if !ok {
 					return false
@@ -360,7 +360,7 @@ func c03R3(c *Ctx) {
 				n2, _ := fieldAddrName(s2.Addr)
 				z, isC := constInt(s2.Val)
 				return n2 == "trzszBuffer.nextIdx" && isC && z == 0
-			})
+			}))
 			c.check(hit == nil, c.fnName(g)+"/chunk-swap-resets-cursor", c.ipos(st), "the cursor restarts at 0 whenever the current chunk is replaced", "the current chunk is replaced and the function returns with the old cursor (the new chunk is read from a stale offset)", c.pathStr(path)...)
 		})
 	}
@@ -503,10 +503,10 @@ func c03R4(c *Ctx) {
 	{
 		// and it always queues it — unless the transfer has stopped reading, or the bytes are in-band ones after the
 		// tunnel was agreed (the two drops C05-R9 / C17-R5 prove): no other exit without the enqueue
-		hitQ, pathQ := reachFromE(ar.Blocks[0], 0, isReturn, func(in ssa.Instruction) bool {
+		hitQ, pathQ := reachFromE(ar.Blocks[0], 0, isReturn, c.orWrapper("addBuffer", func(in ssa.Instruction) bool {
 			ci, ok := in.(ssa.CallInstruction)
 			return ok && calleeID(ci.Common()) == "(*trzsz.trzszBuffer).addBuffer"
-		}, func(from, to *ssa.BasicBlock) bool {
+		}), func(from, to *ssa.BasicBlock) bool {
 			for _, fc := range edgeFactsTo(from, to) {
 				if call, _ := callOf(fc.V); call != nil && fc.Pol && isAtomicOnField(call, "stopped", "Load") {
 					return true
@@ -572,6 +572,43 @@ func readLineContinuation(c *Ctx) {
 		}
 		c.check(onAcc && junk, "readLine/continue-after-newline", c.pos(p.Instrs[len(p.Instrs)-1].Pos()), "after a newline the reader keeps reading only when the accumulated line ends in CR (junk-tolerant mode)",
 			"the wrapped-line decision is not taken on the accumulated line's last byte: a CR|LF split across two reads ends the line early (or a strict line is continued)")
+	}
+	{
+		// universal form: in junk-tolerant mode a line whose accumulated text ends in CR is never returned — under
+		// {junk mode, accumulator not empty, its last byte is CR} no successful return is reachable
+		isAccLen := func(v ssa.Value) bool {
+			call, _ := callOf(v)
+			return call != nil && calleeID(&call.Call) == "(*bytes.Buffer).Len"
+		}
+		lastIsCR := assumption{val: true, cmp: func(op token.Token, x, y ssa.Value) (bool, bool) {
+			if (op != token.EQL && op != token.NEQ) || !isConstIntV('\r')(y) {
+				return false, false
+			}
+			u, ok := x.(*ssa.UnOp)
+			if !ok {
+				return false, false
+			}
+			ia, ok := u.X.(*ssa.IndexAddr)
+			if !ok {
+				return false, false
+			}
+			if bc, _ := callOf(ia.X); bc == nil || calleeID(&bc.Call) != "(*bytes.Buffer).Bytes" {
+				return false, false
+			}
+			return true, op == token.EQL
+		}}
+		reach := blocksUnder(rl, []assumption{{pred: isVar("mayHasJunk"), val: true}, valueIs(isAccLen, 5), lastIsCR})
+		nRet := 0
+		eachInstr(rl, func(in ssa.Instruction) {
+			if !isNilErrReturn(in) {
+				return
+			}
+			nRet++
+			c.check(!reach[in.Block()], "readLine/no-return-on-trailing-CR@junk", c.ipos(in), "in junk-tolerant mode a line is not returned while its accumulated text ends in CR", "in junk-tolerant mode the reader can return a line whose accumulated text ends in CR: a wrap split between the CR and the LF ends the line early and its rest becomes a bogus line")
+		})
+		if nRet == 0 {
+			c.undecided("readLine/no-return-on-trailing-CR@junk", "no successful return in readLine")
+		}
 	}
 	c.check(nBack >= 1, "readLine/has-wrapped-line-continuation", c.pos(rl.Pos()), "junk-tolerant mode can continue after a newline", "the reader never continues after a newline: wrapped lines are cut")
 }
